@@ -10,10 +10,10 @@ TECH = "deterministic simulation with fault injection: seeded generation of hist
 CLAIMED = {
     # id: (engine, design_ref, level text, level note)
     "C03": ("emusim", "6.2",
-            "Generated RV64IMA programs (all instruction classes, boundary immediates/shifts, overlapping accesses of different widths, image-straddling and untouched memory, loops, bad jumps) are loaded by the real pipeline and stepped through the real emulator over Overlay(Bytes, Sparse) next to an independent RISC-V interpreter; a simulated provider supplies unknown state, a simulated operator edits registers, memory and pc between steps; after every step: failure iff not at an instruction start, exact step report, registers / known memory / ip equal to the reference, no panic.",
+            "Generated RV64IMA programs (all instruction classes, boundary immediates/shifts, overlapping accesses of different widths, image-straddling and untouched memory, loops, bad jumps) are loaded by the real pipeline and stepped through the real emulator over Overlay(Bytes, Sparse) next to an independent RISC-V interpreter; a simulated provider supplies unknown state, a simulated operator edits registers, memory and pc between steps; after every step: failure iff not at an instruction start, exact step report, registers / known memory / ip equal to the reference, no panic. One run in 250 is a tool-tier run: the real binary on a pty is taken through 2-4 consecutive emulations (load, store, load back through a supplied pointer into or outside the image) and the registers on its screens must be those of a machine started from the program image each time.",
             "Trusted: rvref interpreter (known-answer tests: ./check selftest-models). Under C03 the provider answers a question that must never be asked (state the emulator already knew) with the complement of the truth. Known open findings (narrow register fill, accesses wrapping around 2^64) are listed in known_findings.json; after a narrow fill the reference is resynchronised to the emulator's assumption."),
     "C04": ("emusim", "6.2",
-            "Same simulated machine: every provider request is an event checked against a known-set model (pre-known, program image, written by program or operator, supplied earlier): requested state was never known and never requested before; supplied values are re-checked at every later reported read.",
+            "Same simulated machine: every provider request is an event checked against a known-set model (pre-known, program image, written by program or operator, supplied earlier): requested state was never known and never requested before; supplied values are re-checked at every later reported read. Tool-tier runs (1 in 250): the prompts of the real binary over consecutive emulations must be exactly those for state that emulation has never known.",
             "Trusted: known-set model in the harness; provider answers truthfully at the requested width. A step refused for reaching the end of the address space (open C03 finding) is stepped over and the bookkeeping continues."),
     "C05": ("movesim", "6.3",
             "Seeded codes (synthetic ISA and real RV64IMA words) and move histories; every block whose order changed is emulated through the real emulator on a fresh unmoved code and on the moved code from identical pseudo-random machine states (simulated lazy memory provider); final registers, memory and instruction pointer must agree; unmoved instructions single-stepped after block moves.",
@@ -25,7 +25,7 @@ CLAIMED = {
             "Seeded histories of instruction moves, block moves and lookups with valid/boundary/invalid indices; after every event the real code is compared with a sequence model (admission iff within reported bounds, rejection changes nothing, rotation, address tiling, lookups, dependency order via the VerifDeps hook, block moves permute only).",
             "Trusted: sequence model; dependency edges read through the verif hook. Lookup sweeps alternate their direction; a third of the histories look nothing up before their first accepted block move."),
     "C20": ("loadsim", "6.4",
-            "Simulated disk under the ELF loader: seeded well-formed images (ELF32/64, LE/BE, all types, odd section/segment layouts) with injected storage faults (truncation, torn/lost writes, bit flips) and read faults (EIO, short reads through the ReaderAt hook); the loader's answer is judged against an independent ELF reader on the bytes delivered; must-reject cases must be rejected; no panic.",
+            "Simulated disk under the ELF loader: seeded well-formed images (ELF32/64, LE/BE, all types, odd section/segment layouts) with injected storage faults (truncation, torn/lost writes, bit flips) and read faults (EIO, short reads through the ReaderAt hook); the loader's answer is judged against an independent ELF reader on the bytes delivered; must-reject cases must be rejected; no panic. One fault-free-reader run in 16 starts the real binary on the image: it must not reach its first prompt on a file the reference says is rejected.",
             "Trusted: elfref reader/builder. Images needing 64 MiB..2^48 B of zero padding are not loaded in-process."),
     "C26": ("loadsim", "6.4",
             "Same disk model plus path and argument faults, run through an in-process replica of main.run() (recover as crash detector) and, for 1 run in 12, the real mltwist binary as a child on a pty under ulimit -v: outcome must be error exit with 'mltwist: ' message or UI entered and quit works; never a crash.",
